@@ -52,6 +52,10 @@ BUILDS = {
     "sync": ("sync", "target-sync", "release"),
     "both": ("raw_strains,sync", "target-both", "release"),
     "plain": ("", "target", "plain"),
+    # what a downstream user ships: no debug assertions, no overflow checks
+    "raw-plain": ("raw_strains", "target-raw", "plain"),
+    "sync-plain": ("sync", "target-sync", "plain"),
+    "both-plain": ("raw_strains,sync", "target-both", "plain"),
 }
 
 
@@ -77,7 +81,7 @@ def build(build="default", quiet=True):
 
 def build_all():
     build_shim()
-    for b in ("default", "plain", "raw", "sync", "both"):
+    for b in ("default", "plain", "raw", "sync", "both", "raw-plain", "sync-plain", "both-plain"):
         build(b, quiet=False)
     import miri_engine
 
